@@ -102,6 +102,8 @@ def _c10_hdr(mtype, transposable):
         # ij() is dead code in the dense matrices (no caller), so only the sparse
         # instantiations, whose iterators report positions through it, assert it
         "IJ_CHECK": "" if transposable else 'a, b := m.ij(k)\n\tVerifAssert("ij-inverts-index:i", a == i)\n\tVerifAssert("ij-inverts-index:j", b == j)',
+        # Real matrices allocate scratch vectors of the slice's extent inside SLICE
+        "SLICE_EXTENT": "3" if "Real" in mtype else "B",
         "MTYPE": mtype,
     })
 
@@ -133,6 +135,8 @@ def c10_jobs(tier):
                     for zm in masks:
                         jobs.append({"func": "verif_C10_ops", "args": [kind, vk, op, R, C, zm],
                                      "tag": f"kind={kind} view={vk} op={op} {R}x{C} zmask={zm:b}"})
+            for vk in (8, 9):
+                jobs.append({"func": "verif_C10_ops", "args": [kind, vk, 18, R, C, 0]})
             jobs.append({"func": "verif_C10_tip", "args": [kind, R, C]})
             if R != C:
                 jobs.append({"func": "verif_C10_tip", "args": [kind, C, R]})
@@ -154,4 +158,80 @@ PROPS["C10"] = {
     "outside": "printing/Table/Export of views (string formatting); parents larger than 3x4; JSON of views is covered under C18",
     "assumptions": ["header extents <= 2^20 so the Int encoding coincides with int64 arithmetic (largest product < 2^41)",
                     "map iteration order modelled as ascending key order"],
+}
+
+# ----------------------------------------------------------------------------- scalars (C08, C09)
+SCALAR_COMMON = ("root/zz_verif_scalar_common.go", "zz_verif_scalar_common.go")
+
+
+def _scalar_real(rt):
+    ft = "float64" if rt == "Real64" else "float32"
+    return ("tmpl/zz_verif_scalar_real.go.tmpl", f"zz_verif_scalar_{rt}.go",
+            {"RTYPE": rt, "VerifFTYPE_CAP": "VerifFloat64" if rt == "Real64" else "VerifFloat32", "FTYPE": ft})
+
+
+S_NOPS = 33
+S_CONC = list(range(15)) + [32]
+S_BINARY = [0, 1, 4, 5, 6, 7, 8, 9, 10]
+S_TEMP = [8, 9, 16]
+
+
+def c09_jobs(tier):
+    jobs = []
+    rts = ["Real64", "Real32"]
+    cfgs = [0, 2, 3, 5] if tier == "quick" else list(range(8))
+    for rt in rts:
+        for op in S_CONC:
+            for cfg in cfgs:
+                for al in ((0, 1, 2) if op in S_BINARY else (0, 1)):
+                    jobs.append({"func": f"verif_C09_scalar_{rt}", "args": [op, cfg, al], "tag": f"{rt} op={op} cfg={cfg} alias={al}"})
+        for cfg in cfgs:
+            jobs.append({"func": f"verif_C09_pred_{rt}", "args": [cfg]})
+    return jobs
+
+
+PROPS["C09"] = {
+    "overlay": [RT, SCALAR_COMMON, _scalar_real("Real64"), _scalar_real("Real32")],
+    "mode": "fp", "intmode": "int",
+    "jobs": c09_jobs,
+    "reach": ["C09-scalar", "C09-pred"],
+    "selftest_vars": ["a", "a.d", "a.h", "b", "b.d", "b.h", "r", "r.d", "r.h", "t", "t.d"],
+    "bounds": {"quick": "scalars: every Xyz/XYZ pair of Real64 and Real32 on fully symbolic jets (any float incl. NaN/Inf/zeros), N<=2, order<=2, "
+                        "constant and mismatching-order operand structures, symbolic prior receiver content",
+               "thorough": "all eight operand structures"},
+    "outside": "",
+    "assumptions": ["libm functions are uninterpreted (same head and argument give the same value), special.* by name"],
+}
+
+
+def c08_jobs(tier):
+    jobs = []
+    cfgs = [0, 2, 3, 5] if tier == "quick" else list(range(8))
+    for rt in ["Real64", "Real32"]:
+        for op in range(S_NOPS):
+            for cfg in cfgs:
+                aliases = [1, 2, 3] if op in S_BINARY else [1]
+                for al in aliases:
+                    for conc in (0, 1):
+                        if conc == 1 and op not in S_CONC:
+                            continue
+                        jobs.append({"func": f"verif_C08_scalar_{rt}", "args": [op, cfg, al, conc],
+                                     "tag": f"{rt} op={op} cfg={cfg} alias={al} conc={conc}"})
+        for op in S_TEMP:
+            for cfg in cfgs:
+                jobs.append({"func": f"verif_C08_temp_{rt}", "args": [op, cfg]})
+    return jobs
+
+
+PROPS["C08"] = {
+    "overlay": [RT, SCALAR_COMMON, _scalar_real("Real64"), _scalar_real("Real32")],
+    "mode": "fp", "intmode": "int",
+    "jobs": c08_jobs,
+    "reach": ["C08-scalar", "C08-temp"],
+    "selftest_vars": ["a", "a.d", "a.h", "b", "b.d", "b.h", "r", "r.d", "r.h", "t", "t.d", "t.h"],
+    "bounds": {"quick": "scalars: every operation of Real64/Real32 with the receiver aliasing the first, the second or both operands, generic and CONCRETE methods, "
+                        "fully symbolic jets N<=2, order<=2 incl. constant operands and mismatching orders; temporaries with arbitrary content",
+               "thorough": "all eight operand structures"},
+    "outside": "",
+    "assumptions": ["libm functions are uninterpreted (same head and argument give the same value), special.* by name"],
 }
